@@ -38,6 +38,14 @@ def mutations(sealed: str, rng: random.Random):
             sw = list(lines)
             sw[a], sw[b] = sw[b], sw[a]
             yield "move", "\n".join(sw)
+    # content added AFTER the seal section (the seal covers the whole document, not a prefix of it)
+    try:
+        end_at = max(i for i, ln in enumerate(lines) if ln == "===END===")
+        yield "append-after-seal", "\n".join(lines[:end_at] + ["AFTER_SEAL::1"] + lines[end_at:])
+        yield "append-block-after-seal", "\n".join(lines[:end_at] + ["AFTERB:", "  X::1"] + lines[end_at:])
+        yield "append-section-after-seal", "\n".join(lines[:end_at] + ["§7::LATE", "  X::1"] + lines[end_at:])
+    except ValueError:
+        pass
     m = re.match(r"^===(\w+)===$", lines[0]) if lines else None
     if m:
         yield "envelope-name", "\n".join([f"==={m.group(1)}X==="] + lines[1:])
@@ -138,7 +146,7 @@ def ob_b1(ctx: Ctx) -> Outcome:
             continue
         seen.add(key)
         wits.append(Witness(what=text[:1200], input={"doc_index": idx}, key=key, replay={"runner": "props.C15_b:replay", "args": {"docs_cfg": list(docs_cfg), "seed": ctx.seed, "idx": idx}}, confirmed=True))
-    extra = dict(bound=f"{n} model documents: seal, verify in memory, emit+parse+verify, re-seal, every single-site mutation of the sealed text that changes the content read (rename key, replace value, retype value, delete/insert line, move, envelope name, 3 hash characters), 3 cosmetic respellings",
+    extra = dict(bound=f"{n} model documents: seal, verify in memory, emit+parse+verify, re-seal, every single-site mutation of the sealed text that changes the content read (rename key, replace value, retype value, delete/insert line, move, envelope name, 3 hash characters, an assignment / block / section appended after the seal), 3 cosmetic respellings",
                  evaluations=res["evaluations"], distinct_nontrivial=res["nontrivial"], rule="a case is a model document with all its mutations; distinct by index; non-trivial: at least one content-changing mutation was applicable", samples=[M.render_canonical(docs_b.docs(*docs_cfg)[0])], failing_documents=len(res["failures"]))
     if wits:
         return Outcome.refuted("real sealer", wits, **extra)
